@@ -265,3 +265,20 @@ def trajectory_prediction_from_states(shape, states):
     from commonroad.prediction.prediction import TrajectoryPrediction
     from commonroad.scenario.trajectory import Trajectory
     return TrajectoryPrediction(Trajectory(states[0].time_step, list(states)), shape)
+
+
+def lanelet_from_arrays(lid, left, center, right, **kw):
+    """Lanelet from the given ndarray OBJECTS (no copy here): lets two lanelets hold one array as common boundary."""
+    from commonroad.scenario.lanelet import Lanelet
+    return Lanelet(left, center, right, lid, **kw)
+
+
+def pm_state(t, position, vx, vy):
+    from commonroad.scenario.state import PMState
+    return PMState(time_step=t, position=np.array(position, dtype=float), velocity=float(vx), velocity_y=float(vy))
+
+
+def custom_pm_state(t, position, vx, vy):
+    """CustomState with position and velocity components but no orientation."""
+    from commonroad.scenario.state import CustomState
+    return CustomState(time_step=t, position=np.array(position, dtype=float), velocity=float(vx), velocity_y=float(vy))
